@@ -95,6 +95,56 @@ fn ints<C: CI>(ctx: &mut Ctx) {
     });
 }
 
+/// exact-fit operands: the converted window is the last symbols of an allocation without spare words, and the
+/// exported / re-imported image is the whole of such an allocation (whole-word lengths, aligned / unaligned starts)
+fn exact_fit<C: CI>(ctx: &mut Ctx) {
+    let a = C::alpha();
+    let name = C::NAME;
+    let bits = a.bits as usize;
+    let fit = 64 / bits;
+    ctx.group(&format!("{name}/exact-fit"), |ctx| {
+        let cases = exact_fit_cases_for(ctx, a.bits);
+        for (n, pad) in cases {
+            if ctx.over() {
+                break;
+            }
+            let _fit = exact_fit_mode();
+            let codes = cover_codes(&mut ctx.rng, a, n);
+            let p = Padded::<C>::new(&mut ctx.rng, pad, &codes, 0);
+            let all = codes_of::<C>(&p.parent);
+            let total = all.len();
+            for k in [1usize, fit.min(total), (8 / bits).min(total)] {
+                if k == 0 || k > total {
+                    continue;
+                }
+                ctx.eval();
+                let s = &p.parent[total - k..];
+                let want = model::pack_u128(a.bits, &all[total - k..]);
+                let what = format!("{name} last {k} symbols of an exact-capacity sequence of {total}");
+                match observe(|| usize::try_from(s)) {
+                    Ok(Ok(v)) => check!(ctx, v as u128 == want, format!("usize::try_from(&slice)|{name}|value"), "{what}: usize::try_from = {v:#x} want {want:#x}"),
+                    other => check!(ctx, false, format!("usize::try_from(&slice)|{name}|refuses-fitting"), "{what}: {:?}", other),
+                }
+                if k * bits <= 8 {
+                    match observe(|| u8::from(s)) {
+                        Ok(v) => check!(ctx, v as u128 == want, format!("u8::from(&slice)|{name}|value"), "{what}: u8::from = {v:#x} want {want:#x}"),
+                        Err(pm) => check!(ctx, false, format!("u8::from(&slice)|{name}|panics"), "{what}: panicked {pm}"),
+                    }
+                }
+            }
+            if total > fit {
+                ctx.eval();
+                let r = observe(|| usize::try_from(&p.parent[total - fit - 1..]).is_err());
+                check!(ctx, r == Ok(true), format!("usize::try_from(&slice)|{name}|truncates-long"), "{name}: last {} symbols of an exact-capacity sequence: {:?}, want Err", fit + 1, r);
+            }
+            image_checks_n::<C>(ctx, &p.parent, &all, "exact-capacity", !ctx.lite && total <= 3 * fit);
+            let win = p.slice().to_owned();
+            image_checks_n::<C>(ctx, &win, &codes, "to_owned-of-allocation-tail", false);
+            cell!(ctx, "{name}/exact-fit/{}/pad{}", len_class(a.bits, n), if pad == 0 { "0" } else if (pad * bits) % 64 == 0 { "word" } else { "unaligned" });
+        }
+    });
+}
+
 // ------------------------------------------------------------------ (b) k-mers <-> integers
 fn digits(bits: u8, k: usize, v: u128) -> Vec<u8> {
     (0..k).map(|i| ((v >> (i * bits as usize)) & ((1u128 << bits) - 1)) as u8).collect()
@@ -107,7 +157,7 @@ fn kmer_case<C: CI, const K: usize, S: KS>(ctx: &mut Ctx) {
     let a = C::alpha();
     let name = C::NAME;
     let kb = K * a.bits as usize;
-    if ctx.lite && !ctx.mine(K + kb) {
+    if ctx.lite && !ctx.mine_group(K + kb) {
         return;
     }
     ctx.group(&format!("{name}/kmer/K{K}/{}", S::NAME), |ctx| {
@@ -166,7 +216,7 @@ fn kmer_usize<C: CI, const K: usize, S: KS>(ctx: &mut Ctx) {
     let a = C::alpha();
     let name = C::NAME;
     let kb = K * a.bits as usize;
-    if ctx.lite && !ctx.mine(K) {
+    if ctx.lite && !ctx.mine_group(K) {
         return;
     }
     ctx.group(&format!("{name}/kmer-usize-api/K{K}"), |ctx| {
@@ -451,6 +501,18 @@ fn readme_table(ctx: &mut Ctx) {
 
 fn main() {
     run_main("C04", |ctx| {
+        ctx.first_use_race(3, |t| {
+            let d: Seq<Dna> = "ACGTTGCAACGTACGTACGTACGTACGTACGTTTGAC".try_into().unwrap();
+            let i: Seq<Iupac> = "ACGTRYSWKMBDHVN-ACGT".try_into().unwrap();
+            let m: Seq<Amino> = "MAGICLIFEQRSTVWY*".try_into().unwrap();
+            let k: Kmer<Dna, 8> = Kmer::try_from(&d[t..t + 8]).unwrap();
+            (
+                usize::try_from(&d[t..t + 30]).ok(), usize::try_from(&i[t..t + 16]).ok(), usize::try_from(&m[t..t + 10]).ok(), usize::try_from(&d[..]).is_err(),
+                usize::from(&k), Kmer::<Dna, 8>::from(0x1b2d + t).to_string(),
+                d.into_raw().to_vec(), Seq::<Dna>::from_raw(20 + t, d.into_raw()).map(|s| s.to_string()), Seq::<Iupac>::from_raw(40, i.into_raw()).is_none(),
+            )
+        });
+        for_each_codec!(exact_fit, ctx);
         for_each_codec!(ints, ctx);
         for_each_codec!(images, ctx);
         for_each_comp_codec!(images_comp, ctx);
@@ -461,6 +523,7 @@ fn main() {
         if ctx.lite {
             for_each_k_small!(kmer_case, usize, ctx);
             for_each_k_small!(kmer_case, u128, ctx);
+            for_each_k_small128!(kmer_case, ctx);
             for_each_k_small!(kmer_usize, usize, ctx);
         } else {
             for_each_k64!(kmer_case, usize, ctx);
